@@ -74,6 +74,11 @@ pub enum Expect {
     /// a response whose bytes after the command code match the pattern (None = unspecified byte);
     /// `exact_len`: the data length is determined
     Respond { cmd: u8, data: Vec<Option<u8>>, what: &'static str, exact: bool },
+    /// like `Respond`, but the request is not a complete single-packet message that owns its tag
+    /// (SOM, EOM and TO are not all set - nothing the library itself ever emits): an answer is
+    /// judged if there is one, its absence is not (benign/C15-o, C11-o, C12-o leave fragments and
+    /// foreign-tag requests unanswered; no statement quantifies over transport flags)
+    MayRespond { cmd: u8, data: Vec<Option<u8>>, what: &'static str, exact: bool },
     /// accepted request the properties say nothing specific about (may or may not respond), state unchanged
     Unspecified,
     /// accepted Set/Force Endpoint ID request carrying an EID outside 0x01-0xFE: outside every
@@ -114,6 +119,24 @@ impl Model {
 
     /// Transition for a processed packet; returns the expectation for the response.
     pub fn process(&mut self, x: &[u8]) -> Expect {
+        let complete = x.len() > 7 && x[7] & 0xC8 == 0xC8; // SOM, EOM, TO
+        let before = (self.req_eid, self.resp_eid);
+        match self.process_complete(x) {
+            Expect::Respond { cmd, data, what, exact } if !complete => {
+                if what == "set-eid-accepted" {
+                    // an assignment carried by a fragment / foreign-tag packet: applied or not is free
+                    self.req_eid = before.0;
+                    self.resp_eid = before.1;
+                    Expect::Resync
+                } else {
+                    Expect::MayRespond { cmd, data, what, exact }
+                }
+            }
+            e => e,
+        }
+    }
+
+    fn process_complete(&mut self, x: &[u8]) -> Expect {
         let f = facts(x);
         match decide(x) {
             RefOut::Accept { ty: TY_CONTROL, a, b } if f.rq => {
@@ -122,7 +145,13 @@ impl Model {
                     0x01 => {
                         let op = data[0];
                         let eid = data[1];
-                        if (op == 0 || op == 1) && (eid == 0x00 || eid == 0xFF) {
+                        if op & 0xFC != 0 {
+                            // reserved bits 7:2 of the operation byte set: whether the operation is
+                            // "Set"/"Force" by its low two bits (DSP0236; benign/C13-o) or none of the
+                            // library's four operations (pinned tree) is not fixed by C13's "whose
+                            // operation was Set or Force" - the model follows the context
+                            Expect::Resync
+                        } else if (op == 0 || op == 1) && (eid == 0x00 || eid == 0xFF) {
                             // C13 (and C12) quantify over EIDs 0x01-0xFE: an endpoint may adopt the
                             // null / broadcast EID or refuse it. The caller re-synchronises the
                             // model with whatever the context reports after this step.
@@ -342,7 +371,12 @@ pub fn judge(exp: Option<&Expect>, obs: &Obs, m: &Model) -> Vec<Disc> {
                 v.push(Disc { cmd: None, cat: "buffer-touched", detail: "response buffer changed although no response was reported".into() });
             }
         }
-        Some(Expect::Respond { cmd, data, what, exact }) => match &obs.resp {
+        Some(Expect::MayRespond { .. }) if obs.resp.is_none() => {
+            if !obs.rb_clean {
+                v.push(Disc { cmd: None, cat: "buffer-touched", detail: "response buffer changed although no response was reported".into() });
+            }
+        }
+        Some(Expect::Respond { cmd, data, what, exact }) | Some(Expect::MayRespond { cmd, data, what, exact }) => match &obs.resp {
             None => v.push(Disc { cmd: Some(*cmd), cat: "no-response", detail: format!("no response to an accepted request with command {:#04x} ({}); result {}", cmd, what, obs.proc.as_ref().map(|p| p.brief()).unwrap_or_default()) }),
             Some(r) => match view(r) {
                 None => v.push(Disc { cmd: Some(*cmd), cat: "malformed-response", detail: format!("response {} is not a control message of at least 13 bytes", hex(r)) }),
